@@ -26,12 +26,22 @@ def check(prop, tier, replay_file=None):
         for st in STORES:
             for part in range(2 if tier == "quick" else 10):
                 jobs.append((st, part))
+        one = None
+        if replay_file:
+            # the history of a replay file is run again (same store, same seed: same operations; the interleaving of the
+            # real goroutines is whatever it is this time)
+            hh = json.load(open(replay_file))["history"]
+            one = (hh["store"], hh["seed"] // 1000, hh["seed"] % 1000)
+            jobs = [(hh["store"], 0)]
 
         def run(job):
             st, part = job
             out = sc.path("hist-%s-%d.ndjson" % (st, part))
             per = n // (2 if tier == "quick" else 10)
-            r = subprocess.run([bins["storerun"], "-store", st, "-n", str(per), "-seed", str(sd * 100 + part), "-ops", str(ops), "-bound", "10000", "-out", out],
+            args = ["-n", str(per), "-seed", str(sd * 100 + part)]
+            if one:
+                args = ["-n", str(one[2] + 1), "-from", str(one[2]), "-seed", str(one[1])]
+            r = subprocess.run([bins["storerun"], "-store", st] + args + ["-ops", str(ops), "-bound", "10000", "-out", out],
                                stdout=subprocess.PIPE, stderr=subprocess.PIPE, text=True, timeout=3600)
             return st, out, r.returncode, r.stderr
         hists = []
